@@ -27,6 +27,7 @@ import tempfile
 import numpy as np
 
 from fcv import meshgen
+from fcv import meshgen_p6g1m as mg6
 from fcv.num import f2u, next_up, next_down
 
 REL = 1e-8
@@ -709,6 +710,223 @@ def _shrink_ladder(case):
     return case
 
 
+# ---------------------------------------------------------------- phase 6 (G1m): quantifier-coverage batches
+
+def impl_compare_st(src, ref, st_s=None, st_r=None, objs=None):
+    """like impl_compare, the operands stored as the storages say (fcv.meshgen_p6g1m) or given as objects"""
+    from fieldcompare.mesh import MeshFieldsComparator
+    try:
+        a, b = objs if objs else (mg6.to_fc_storage(src, st_s), mg6.to_fc_storage(ref, st_r))
+        with _quiet():
+            suite = MeshFieldsComparator(a, b)(fieldcomp_callback=lambda _: None)
+    except Exception as e:   # noqa: BLE001
+        return f"exception:{type(e).__name__}", 0
+    st = sorted(f"{c.name}~{c.status.name}" for c in suite)
+    dom = bool(suite.domain_equality_check)
+    ok = dom and all(c.status.name == "passed" for c in suite)      # (field names may contain any character)
+    return f"{'PASS' if ok else 'NOT-PASSED'} {int(dom)}:{','.join(st)}", len(st)
+
+
+def passes_st(obs):
+    return obs.startswith("PASS ")
+
+
+def _nfields(lm):
+    return len(lm["pf"]) + len(lm["cf"])
+
+
+def _sep_of(ctx, pairs):
+    """driver verdict `Sep` (both sides and jointly) for the domains of the pairs"""
+    reps = _lean(ctx, [ladder_line(meshgen_strip(a), meshgen_strip(b), (False, False, False)) for a, b in pairs])
+    return [r is not None and r.get("sep") == "1" and r.get("jsep") == "1" for r in reps]
+
+
+def _st_case(src, ref, st_s, st_r):
+    return {"kind": "ladder-st", "src": src, "ref": ref, "st_src": st_s or mg6.DEFAULT_STORAGE, "st_ref": st_r or mg6.DEFAULT_STORAGE}
+
+
+def p6g_checks(ctx):
+    """directed batches for dimensions of the quantifier sampled at one point only before (notes/PHASE6_G1m_audit.md).
+    FCV_P6G_OFF=1 switches them off."""
+    import time
+    rng = ctx.rng
+    t0 = [time.time()]
+    secs = ctx.extra.setdefault("p6g_seconds", {})
+
+    def lap(name):
+        secs[name] = round(secs.get(name, 0.0) + time.time() - t0[0], 2)
+        t0[0] = time.time()
+    kinds = ["identity", "reversal", "random", "blockswap", "transposition"]
+    wheres = ["front", "middle", "scattered", "end"]
+    sides = ["src", "ref", "both"]
+    # (a) both members of a compatible pair in one mesh; unconnected points at the front / in the middle / scattered, on one
+    # side only or on both; pure block-order / pure cell-order relabellings -- through the full pipeline (Lean hypotheses)
+    pairs = []
+    for i in range(ctx.scale(48, 900)):
+        if i % 3 == 2:
+            A, tg = gen_base(rng)
+            tg = dict(tg, style=str(tg["style"]))
+        else:
+            A, tg = mg6.gen_pair_mesh(rng, jitter=rng.choice([0.0, 0.0, 0.3]))
+        kind = kinds[i % 5]
+        noise = [0.0, 0.0, 1e-11][i % 3]
+        B = meshgen.relabel(rng, A, noise_rel=noise, extra_orphans=0, shuffle_blocks=(i % 4 != 1),
+                            point_perm=perm_of_kind(rng, len(A["points"]), kind))
+        where, side = wheres[i % 4], sides[(i // 4) % 3]
+        if i % 6 != 5:
+            if side in ("src", "both"):
+                B = mg6.insert_orphans(rng, B, where, rng.randint(1, 3))
+            if side in ("ref", "both"):
+                A = mg6.insert_orphans(rng, A, where if i % 8 else "front", rng.randint(1, 3))
+            otag = f"p6g-orphans-{where}-{side}"
+        else:
+            otag = "p6g-orphans-none"
+            if len({t for t, _ in A["cells"]}) == len(A["cells"]):
+                # relabellings that change ONE thing only: the order of the cells inside the types (points and blocks in
+                # place), or the order of the type blocks (points and cells in place)
+                ident = list(range(len(A["points"])))
+                if (i // 6) % 2 == 0:
+                    B = py_relabel(A, ident, [perm_of_kind(rng, len(rows), rng.choice(["reversal", "random", "transposition"]))
+                                              for _, rows in A["cells"]])
+                    kind, noise, otag = "cells-only", 0.0, "p6g-cells-only"
+                else:
+                    B = py_relabel(A, ident, [list(range(len(rows))) for _, rows in A["cells"]])
+                    B["cells"] = B["cells"][::-1]
+                    kind, noise, otag = "blocks-only", 0.0, "p6g-blocks-only"
+        pairs.append((A, B, ["p6g-pipeline", "style=" + tg["style"], f"relabel={kind}", f"noise={noise}", otag], noise))
+    sort_checks(ctx, pairs)
+    ladder_checks(ctx, pairs, [0])
+    lap("pipeline")
+    # (b) storage: coordinate dtype / byte order / memory layout, index type, strided / read-only field arrays (search; Sep
+    # from the driver on the values)
+    nst = len(mg6.STORAGES)
+    jobs = []
+    for i in range(ctx.scale(48, 900)):
+        st = mg6.STORAGES[i % nst]
+        if (i // nst) % 2:
+            A, tg = mg6.gen_pair_mesh(rng, max_cells_per_dir=2 if st["conn"] in ("u8", "i8") else 3)
+        else:
+            A, tg = meshgen.gen_mesh(rng, max_cells_per_dir=3, allow_duplicates=(i % 5 == 0))
+        if "f4" in st["pts"]:
+            A = mg6.round_to_f32(A)
+        B = meshgen.relabel(rng, A, extra_orphans=rng.choice([0, 0, 1]))
+        if i % 4 == 0:
+            B = mg6.insert_orphans(rng, B, "front", 2)
+        if mg6.storage_fits(A, st) and mg6.storage_fits(B, st):
+            jobs.append((A, B, st))
+    for (A, B, st), sep in zip(jobs, _sep_of(ctx, [(a, b) for a, b, _ in jobs])):
+        ctx.case(("p6g-st", _key(A), _key(B), mg6.storage_tag(st)), nontrivial=sep,
+                 tags=["p6g-storage", "p6g-" + mg6.storage_tag(st), "Sep" if sep else "noSep"])
+        if not sep:
+            continue
+        for src, ref, ss, sr in ((A, B, st, None), (B, A, None, st), (B, A, st, st)):
+            obs, n = impl_compare_st(src, ref, ss, sr)
+            if not passes_st(obs) or n != _nfields(ref):
+                ctx.violation(_st_case(src, ref, ss, sr), obs, "1:<every field passed>",
+                              what=f"relabelled pair inside Sep does not compare as passed (storage {mg6.storage_tag(st)})")
+        try:
+            from fieldcompare.mesh import sort
+            sa = _canon_lm(mg6.from_fc_any(sort(mg6.to_fc_storage(A, st))))
+            sb = _canon_lm(mg6.from_fc_any(sort(mg6.to_fc_storage(B, None))))
+        except ValueError:
+            sa = sb = None
+        except Exception as e:   # noqa: BLE001
+            sa, sb = f"exception:{type(e).__name__}", None
+        if sa != sb:
+            ctx.violation(dict(_st_case(A, B, st, None), kind="canon-st"), _diff(sa, sb) if isinstance(sa, dict) and isinstance(sb, dict) else str(sa)[:80],
+                          "identical sorted representations", what=f"sort(A) and sort(relabel A) differ (storage {mg6.storage_tag(st)})")
+    lap("storage")
+    # (c) sizes: > 1000 and > 65536 points (noise-free lattices: Sep by construction; search only)
+    sizes = [(33, 33, "quad", 3, "random"), (40, 30, "tri", 2, "reversal"), (1100, 0, "line", 1, "random"), (36, 30, "pixel", 2, "rotation")]
+    sizes += [(260, 256, "quad", 2, "random")] if ctx.tier != "thorough" else [(260, 256, "quad", 3, "random"), (300, 230, "tri", 2, "rotation"),
+                                                                               (70000, 0, "line", 2, "random")]
+    for nx, ny, style, dim, kind in sizes:
+        A = mg6.big_lattice(nx, ny, dim=dim, style=style, scale=rng.choice([1.0, 2.5]), offset=rng.choice([0.0, -5.0]))
+        B = mg6.fast_relabel(rng, A, kind)
+        n = len(A["points"])
+        noise = 0.0
+        if style in ("quad", "pixel") and n < 60000:
+            # coordinate noise far below the tolerance (1e-12 of the largest coordinate; lattice spacing >= 1)
+            noise = 1e-12 * max(abs(c) for p in A["points"] for c in p)
+            B["points"] = [[c + rng.uniform(-1, 1) * noise for c in p] for p in B["points"]]
+        if n < 2000:
+            B = mg6.insert_orphans(rng, B, "front", 2)
+        a, b = mg6.to_fc_storage(A), mg6.to_fc_storage(B)
+        for role, objs in (("A-vs-B", (a, b)), ("B-vs-A", (b, a))):
+            obs, nf = impl_compare_st(None, None, objs=objs)
+            ctx.case(("p6g-big", n, style, dim, kind, role), nontrivial=True,
+                     tags=["p6g-big", f"p6g-npoints={n}", role, f"relabel={kind}", "p6g-big-noise" if noise else "p6g-big-noise-free"])
+            if not passes_st(obs) or nf != _nfields(A):
+                case = {"kind": "big", "args": [nx, ny, dim, style], "npoints": n, "relabel": kind, "role": role}
+                if n < 2000:
+                    case = _st_case(A, B, None, None) if role == "A-vs-B" else _st_case(B, A, None, None)
+                ctx.violation(case, obs[:300], "1:<every field passed>", what=f"relabelled {n}-point lattice does not compare as passed")
+        if n < 2000 and not noise:
+            sa, sb = impl_sorted(A), impl_sorted(B)
+            if sa != sb or isinstance(sa, str):
+                ctx.violation({"kind": "canon", "a": A, "b": B}, _diff(sa, sb), "identical sorted representations",
+                              what=f"sort(A) and sort(relabel A) differ ({n} points)")
+    lap("big")
+    # (d) objects used more than once: the same data set object in several comparisons and on both sides, a comparator
+    # called twice; operands inspected afterwards
+    jobs = []
+    for i in range(ctx.scale(14, 300)):
+        A, tg = mg6.gen_pair_mesh(rng) if i % 2 else meshgen.gen_mesh(rng, max_cells_per_dir=3, allow_duplicates=(i % 4 == 0))
+        jobs.append((A, meshgen.relabel(rng, A, extra_orphans=i % 2), meshgen.relabel(rng, A)))
+    seps = _sep_of(ctx, [(a, b) for a, b, _ in jobs] + [(a, c) for a, _, c in jobs])
+    for k, (A, B, C) in enumerate(jobs):
+        sep = seps[k] and seps[len(jobs) + k]
+        ctx.case(("p6g-reuse", _key(A), _key(B), _key(C)), nontrivial=sep, tags=["p6g-reuse", "Sep" if sep else "noSep"])
+        if not sep:
+            continue
+        from fieldcompare.mesh import MeshFieldsComparator
+        a, b, c = meshgen.to_fc(A), meshgen.to_fc(B), meshgen.to_fc(C)
+        seq = [("a,b", a, b, A, B), ("a,c", a, c, A, C), ("c,a", c, a, C, A), ("b,a", b, a, B, A), ("a,a", a, a, A, A), ("b,c", b, c, B, C)]
+        for name, x, y, X, Y in seq:
+            obs, nf = impl_compare_st(None, None, objs=(x, y))
+            if not passes_st(obs) or nf != _nfields(Y):
+                ctx.violation({"kind": "reuse", "a": A, "b": B, "c": C, "failed": name}, obs, "1:<every field passed>",
+                              what=f"comparison ({name}) in a sequence that reuses the data set objects does not pass")
+                break
+        else:
+            try:
+                with _quiet():
+                    comp = MeshFieldsComparator(b, a)
+                    r1 = comp(fieldcomp_callback=lambda _: None)
+                    r2 = comp(fieldcomp_callback=lambda _: None)
+                ok = bool(r1) and bool(r2)
+            except Exception as e:   # noqa: BLE001
+                ok = False
+            if not ok:
+                ctx.violation({"kind": "reuse", "a": A, "b": B, "c": C, "failed": "comparator-twice"}, "not passed", "passed twice",
+                              what="a MeshFieldsComparator called twice on a relabelled pair does not pass both times")
+            for X, x in ((A, a), (B, b), (C, c)):
+                if _canon_lm(meshgen.from_fc(x)) != _canon_lm(X) or [t for t, _ in meshgen.from_fc(x)["cells"]] != [t for t, _ in X["cells"]]:
+                    ctx.violation({"kind": "reuse", "a": A, "b": B, "c": C, "failed": "operand-changed"}, "changed", "unchanged",
+                                  what="a data set changed by being compared")
+    lap("reuse")
+    # (e) field shapes (n,1), narrow / unsigned integer and string fields, names that are empty / unicode / contain separators
+    jobs = []
+    for i in range(ctx.scale(24, 500)):
+        A, tg = mg6.gen_pair_mesh(rng, jitter=0.0) if i % 2 else meshgen.gen_mesh(rng, max_cells_per_dir=3, allow_duplicates=False)
+        A = mg6.add_odd_fields(rng, A, names=(i % 3 != 2), strings=(i % 4 != 3))
+        B = meshgen.relabel(rng, A, point_perm=perm_of_kind(rng, len(A["points"]), kinds[i % 5]))
+        jobs.append((A, B))
+    for (A, B), sep in zip(jobs, _sep_of(ctx, jobs)):
+        ctx.case(("p6g-odd", _key(A), _key(B), repr([f["name"] for f in A["pf"] + A["cf"]])), nontrivial=sep,
+                 tags=["p6g-odd-fields", "Sep" if sep else "noSep"] + sorted({"p6g-name=" + repr(f["name"]) for f in A["pf"] + A["cf"]
+                                                                          if f["name"] in mg6.ODD_NAMES}))
+        if not sep:
+            continue
+        for src, ref in ((A, B), (B, A)):
+            obs, nf = impl_compare_st(src, ref, None, None)
+            if not passes_st(obs) or nf != _nfields(ref):
+                ctx.violation(_st_case(src, ref, None, None), obs + f" ({nf} comparisons for {_nfields(ref)} fields)",
+                              "1:<every field passed>", what="relabelled pair with (n,1) / narrow-integer / string fields or odd field "
+                              "names does not compare as passed field by field")
+    lap("odd-fields")
+
+
 # ---------------------------------------------------------------- exhaustive small scope (thorough)
 
 def small_meshes():
@@ -788,6 +1006,8 @@ def run(ctx):
         done += len(pairs)
     # phase 4: noisy relabelled pairs; drawn AFTER the loop so that the random stream of the checks above is unchanged
     noisy_checks(ctx, noisy_pool)
+    if os.environ.get("FCV_P6G_OFF") != "1":
+        p6g_checks(ctx)
     if ctx.tier == "thorough":
         exhaustive(ctx)
     ctx.spec_viol = ctx.spec_viol[:50]
@@ -844,6 +1064,40 @@ def replay(ctx, payload):
                 shutil.rmtree(d, ignore_errors=True)
             print(f"replay: CLI exit code {code}")
             bad = bad or code != 0
+    elif kind in ("ladder-st", "canon-st"):
+        obs, n = impl_compare_st(c["src"], c["ref"], c["st_src"], c["st_ref"])
+        print(f"replay: MeshFieldsComparator (storage {mg6.storage_tag(c['st_src'])} vs {mg6.storage_tag(c['st_ref'])}) -> {obs} "
+              f"({n} comparisons, {_nfields(c['ref'])} fields); demanded: equal domains, every field passed")
+        bad = not passes_st(obs) or n != _nfields(c["ref"])
+        if kind == "canon-st":
+            from fieldcompare.mesh import sort
+            sa = _canon_lm(mg6.from_fc_any(sort(mg6.to_fc_storage(c["src"], c["st_src"]))))
+            sb = _canon_lm(mg6.from_fc_any(sort(mg6.to_fc_storage(c["ref"], c["st_ref"]))))
+            print(f"replay: sort(a) == sort(b): {sa == sb}")
+            bad = bad or sa != sb
+    elif kind == "reuse":
+        a, b, cc = meshgen.to_fc(c["a"]), meshgen.to_fc(c["b"]), meshgen.to_fc(c["c"])
+        res = [(nm, impl_compare_st(None, None, objs=o)[0]) for nm, o in
+               (("a,b", (a, b)), ("a,c", (a, cc)), ("c,a", (cc, a)), ("b,a", (b, a)), ("a,a", (a, a)), ("b,c", (b, cc)))]
+        print("replay: sequence of comparisons reusing the objects:", [(nm, passes_st(o)) for nm, o in res])
+        bad = not all(passes_st(o) for _, o in res)
+        if not bad:
+            from fieldcompare.mesh import MeshFieldsComparator
+            with _quiet():
+                comp = MeshFieldsComparator(b, a)
+                r = [bool(comp(fieldcomp_callback=lambda _: None)), bool(comp(fieldcomp_callback=lambda _: None))]
+            unchanged = all(_canon_lm(meshgen.from_fc(x)) == _canon_lm(X) for X, x in ((c["a"], a), (c["b"], b), (c["c"], cc)))
+            print(f"replay: comparator called twice -> {r}; operands unchanged: {unchanged}")
+            bad = not all(r) or not unchanged
+    elif kind == "big":
+        import random
+        nx, ny, dim, style = c["args"]
+        A = mg6.big_lattice(nx, ny, dim=dim, style=style)
+        B = mg6.fast_relabel(random.Random(0), A, c.get("relabel", "random"))
+        a, b = mg6.to_fc_storage(A), mg6.to_fc_storage(B)
+        obs = [impl_compare_st(None, None, objs=o)[0] for o in ((a, b), (b, a))]
+        print(f"replay: {len(A['points'])}-point lattice vs its relabelling, both roles pass: {[passes_st(o) for o in obs]}")
+        bad = not all(passes_st(o) for o in obs)
     elif kind == "canon":
         sa, sb = impl_sorted(c["a"]), impl_sorted(c["b"])
         print(f"replay: sort(a) == sort(b): {sa == sb}")
